@@ -631,7 +631,7 @@ def run(ctx):
     # the source tie of the access decision (translation + proof): validated
     # against the real functions and the real render path; when it broke, the
     # property is searched on the python functions
-    c19_source.security_validate(ctx, gsec, ctx.extra.get('access_out'))
+    c19_source.security_validate(ctx, gsec, ctx.extra.get('access_out'), None if r['ok'] else r['failing'])
     found = ctx.nviol > before or bool(ctx.known_hits)
     c19_source.static_verdict(ctx, gsta, found)
 
